@@ -381,12 +381,17 @@ func (response *InboundCallResponse) SendSystemError(err error) error {
 	response.state = reqResWriterComplete
 	response.systemError = true
 	response.setSpanErrorDetails(err)
+
+	// The error frame is queued before the exchange is shut down: on a connection that
+	// is draining after Close, removing its last exchange closes the connection, and a
+	// closed connection refuses to send -- the caller would see the connection go away
+	// instead of the error of the call it had been accepted for.
+	span := CurrentSpan(response.mex.ctx)
+	sendErr := response.conn.SendSystemError(response.mex.msgID, *span, err)
+
 	response.doneSending()
 	response.call.releasePreviousFragment()
-
-	span := CurrentSpan(response.mex.ctx)
-
-	return response.conn.SendSystemError(response.mex.msgID, *span, err)
+	return sendErr
 }
 
 // SetApplicationError marks the response as being an application error.  This method can
